@@ -989,7 +989,7 @@ func (m *Model) cmdZRange(c chk, a []string, store bool) error {
 			for _, p := range res {
 				ne.Z[p.M] = p.S
 			}
-			m.set(a[0], ne)
+			m.setStore(a[0], ne)
 		}
 		if len(res) == 0 && c.rep.IsErr() {
 			return nil
@@ -1267,7 +1267,7 @@ func (m *Model) cmdZAlgebra(c chk, op string, a []string, store bool) error {
 		} else {
 			ne := newZ()
 			ne.Z = res
-			m.set(a[0], ne)
+			m.setStore(a[0], ne)
 		}
 		return c.integer(int64(len(res)))
 	}
